@@ -6,6 +6,7 @@ import (
 	"os"
 	"runtime/debug"
 	"sort"
+	"strconv"
 	"strings"
 	"time"
 
@@ -66,6 +67,9 @@ func (in *Instance) defaults() {
 	}
 	if in.VCBatch == 0 {
 		in.VCBatch = 64
+	}
+	if v, err := strconv.Atoi(os.Getenv("VP_VC_TIMEOUT_MS")); err == nil && v > 0 {
+		in.VCTimeoutMs = v // experimentation only
 	}
 	if in.VCTimeoutMs == 0 {
 		in.VCTimeoutMs = 60000
